@@ -170,12 +170,23 @@ class Database:
             logger.info(
                 "Applying migration version %d (%s)", idx, migration.__name__
             )
-            await migration(self.conn)
-            await self.execute(
-                "insert into versions (version) values (?)",
-                str(idx),
-                commit=True,
-            )
+            # A migration and the record that it has been applied are one
+            # transaction (sqlite's DDL is transactional). If we die half
+            # way through a migration nothing of it is left behind;
+            # otherwise the next start would try to apply it again on top of
+            # its own leftovers and fail with "table ... already exists"
+            # forever.
+            #
+            await self.conn.execute("BEGIN")
+            try:
+                await migration(self.conn)
+                await self.conn.execute(
+                    "insert into versions (version) values (?)", str(idx)
+                )
+            except BaseException:
+                await self.conn.rollback()
+                raise
+            await self.conn.commit()
 
     ####################################################################
     #
